@@ -125,23 +125,24 @@ done:
 /* families */
 static void s10_small(const int *d, vcase *c) { all123(d[0], &c->n, &c->pat); c->m = c->n; c->colperm = d[1]; c->sym = d[2]; c->aux = 0; c->permid = -1; }
 static void s10_all4(const int *d, vcase *c) { c->n = c->m = 4; c->pat = (uint64_t)d[0]; c->colperm = d[1]; c->sym = d[2]; c->aux = 0; }
-static const int RM[] = { 2, 3, 3, 4, 4, 1, 2, 5, 3 }, RN[] = { 1, 1, 2, 2, 3, 2, 3, 3, 4 };
+#define NRECT 13
+static const int RM[NRECT] = { 2, 3, 3, 4, 4, 1, 2, 5, 3, 1, 2, 2, 3 }, RN[NRECT] = { 1, 1, 2, 2, 3, 2, 3, 3, 4, 3, 4, 5, 5 };
 static const int RECT_CP[] = { 0, 1, 3 };
-static long rect_off[10]; static long rect_total(void) { long s = 0; for (int k = 0; k < 9; k++) { rect_off[k] = s; s += 1L << (RM[k] * RN[k]); } rect_off[9] = s; return s; }
+static long rect_off[NRECT + 1]; static long rect_total(void) { long s = 0; for (int k = 0; k < NRECT; k++) { rect_off[k] = s; s += 1L << (RM[k] * RN[k]); } rect_off[NRECT] = s; return s; }
 static void s10_rect(const int *d, vcase *c) { rect_total(); int k = 0; while (d[0] >= rect_off[k + 1]) k++; c->m = RM[k]; c->n = RN[k]; c->pat = (uint64_t)(d[0] - rect_off[k]); c->colperm = RECT_CP[d[1]]; c->sym = d[2]; c->aux = 0; }
 static void s10_dev(const int *d, vcase *c) { int n = d[3] ? 8 : 6; c->n = c->m = n; c->pat = dev1_pattern(n, base_pattern(n, d[0]), d[1] % (n * n + 1)); c->colperm = d[2] % 4; c->sym = d[2] / 4; c->aux = 0; }
 static void s10_my4(const int *d, vcase *c) { c->n = c->m = 4; c->pat = (uint64_t)d[0]; c->colperm = 4; c->permid = d[1]; c->sym = d[2]; c->aux = 0; }
 static void s10_my6(const int *d, vcase *c) { c->n = c->m = 6; c->pat = dev1_pattern(6, base_pattern(6, d[0]), d[1]); c->colperm = 4; c->permid = d[2] * 29 + 1; c->sym = d[3]; c->aux = 0; }
 static const int LARGE_N[] = { 101, 128, 110, 137 };
-static void s10_large(const int *d, vcase *c) { c->n = LARGE_N[d[0]]; c->m = c->n + (d[3] == 1 ? 3 : 0); c->pat = (uint64_t)d[1]; c->aux = 1; c->colperm = (d[3] == 1 && d[2] == 2) ? 1 : d[2]; c->sym = d[4]; }
+static void s10_large(const int *d, vcase *c) { c->n = LARGE_N[d[0]]; c->m = c->n + (d[3] == 1 ? 3 : d[3] == 2 ? -9 : 0); c->pat = (uint64_t)d[1]; c->aux = 1; c->colperm = (d[3] != 0 && d[2] == 2) ? 1 : d[2]; c->sym = d[4]; }
 static const family F10Q[] = {
     { "ALL(1..3) x {NATURAL,MMD_ATA,MMD_AT+A,COLAMD} x SymmetricMode2", 3, { N_ALL123, 4, 2 }, s10_small },
     { "ALL(4) x 4 orderings x SymmetricMode2", 3, { N_ALL4, 4, 2 }, s10_all4 },
-    { "RECT all patterns of (2x1,3x1,3x2,4x2,4x3,1x2,2x3,5x3,3x4) x {NATURAL,MMD_ATA,COLAMD} x sym2", 3, { 2 + 8 + 64 + 256 + 4096 + 4 + 64 + 32768 + 4096, 3, 2 }, s10_rect },
+    { "RECT all patterns of (2x1,3x1,3x2,4x2,4x3,1x2,2x3,5x3,3x4,1x3,2x4,2x5,3x5) x {NATURAL,MMD_ATA,COLAMD} x sym2", 3, { 2 + 8 + 64 + 256 + 4096 + 4 + 64 + 32768 + 4096 + 8 + 256 + 1024 + 32768, 3, 2 }, s10_rect },
     { "DEV_1(BASE(6)), DEV_1(BASE(8)) x 4 orderings x sym2", 4, { 9, 65, 8, 2 }, s10_dev },
     { "MY_PERMC: ALL(4) x all 4! orders x sym2", 3, { N_ALL4, 24, 2 }, s10_my4 },
     { "MY_PERMC: DEV_1(BASE(6)) x 24 fixed orders x sym2", 4, { 9, 37, 24, 2 }, s10_my6 },
-    { "large structured (n in {101,128,110,137}; dense rows/columns, empty rows/columns, columns living only in dense rows) x 4 orderings x {square, tall} x sym2", 5, { 4, 12, 4, 2, 2 }, s10_large },
+    { "large structured (n in {101,128,110,137}; dense rows/columns, empty rows/columns, columns living only in dense rows) x 4 orderings x {square, tall (m=n+3), wide (m=n-9)} x sym2", 5, { 4, 12, 4, 3, 2 }, s10_large },
 };
 #define NF(F) ((int)(sizeof F / sizeof *F))
 static long sz_10(int tier) { return fam_total(F10Q, NF(F10Q)); }
@@ -150,8 +151,8 @@ static void desc_10(int tier, char *b, size_t cap) { fam_describe(F10Q, NF(F10Q)
 static const char RULE10[] = "every pattern of the listed families x ordering method x SymmetricMode is passed through get_perm_c and sp_preorder; the returned etree is compared with the column elimination tree computed from its definition (symbolic Cholesky of (A Pc)'(A Pc)); non-trivial = n>=2 and at least one entry";
 
 /* ========================================================================== C11 */
-static const char *const CNT11[] = { "info_zero", "info_row", "info_col", "equed_N", "equed_R", "equed_C", "equed_B", "clamped_rows", "clamped_cols", "rect", "subnormal_inputs", "huge_inputs", NULL };
-enum { E_OK, E_ROW, E_COL, E_N, E_R, E_C, E_B, E_CLR, E_CLC, E_RECT, E_SUB, E_HUGE };
+static const char *const CNT11[] = { "info_zero", "info_row", "info_col", "equed_N", "equed_R", "equed_C", "equed_B", "clamped_rows", "clamped_cols", "rect", "subnormal_inputs", "huge_inputs", "threshold_sweep", NULL };
+enum { E_OK, E_ROW, E_COL, E_N, E_R, E_C, E_B, E_CLR, E_CLC, E_RECT, E_SUB, E_HUGE, E_SWEEP };
 static const char *const RAT11[] = { "row_max_dev_over_4eps", "col_max_dev_over_4eps", NULL };
 
 /* magnitude alphabet per type */
@@ -265,9 +266,19 @@ static void run_C11(const vcase *c, vres *r)
         /* xlaqgs: documented threshold rule and exact application */
         char equed = '?'; dmat A0 = A, A1;
         double rowcnd = (double)T->rld(rc, 0), colcnd = (double)T->rld(cc, 0), amaxd = (double)T->rld(am, 0);
+        double small, large; int single = (T->id == TS || T->id == TC);
+        /* SMALL = xmach("Safe minimum") / xmach("Precision"), Precision = eps * base */
+        if (single) { float s = (float)T->sfmin / ((float)T->eps * 2.0f); small = s; large = 1.0f / s; } else { small = T->sfmin / (T->eps * 2.0); large = 1.0 / small; }
+        if (c->aux == 1) {
+            /* threshold sweep: ROWCND, COLCND and AMAX are inputs of xlaqgs; every combination of values at, just below and just above the documented
+               thresholds (0.1; SMALL and LARGE) is passed, whatever xgsequ computed.  The values are the ones the routine sees in working precision. */
+            int a = c->k % 5, b = (c->k / 5) % 5, g = (c->k / 25) % 5;
+            double th[5]; th[0] = single ? (double)nextafterf(0.1f, 0.0f) : nextafter(0.1, 0.0); th[1] = single ? (double)0.1f : 0.1; th[2] = single ? (double)nextafterf(0.1f, 1.0f) : nextafter(0.1, 1.0); th[3] = 0.0; th[4] = 1.0;
+            if (single) th[0] = (double)nextafterf(nextafterf(0.1f, 0.0f), 0.0f);      /* 0.1f itself lies above the double constant 0.1; two steps down is below it */
+            double av[5]; av[0] = 1.0; av[1] = small; av[2] = single ? (double)nextafterf((float)small, 0.0f) : nextafter(small, 0.0); av[3] = large; av[4] = single ? (double)nextafterf((float)large, INFINITY) : nextafter(large, INFINITY);
+            rowcnd = th[a]; colcnd = th[b]; amaxd = av[g]; WK_COUNT(E_SWEEP);
+        }
         T->laqgs(&S.A, Rb, Cb, rowcnd, colcnd, amaxd, &equed);
-        double small, large;
-        if (T->id == TS || T->id == TC) { float s = (float)T->sfmin / (float)T->eps; small = s; large = 1.0f / s; } else { small = T->sfmin / T->eps; large = 1.0 / small; }
         char want_e;
         if (rowcnd >= 0.1 && amaxd >= small && amaxd <= large) want_e = colcnd >= 0.1 ? 'N' : 'C'; else want_e = colcnd >= 0.1 ? 'R' : 'B';
         if (equed != want_e) { wk_fail(r, "laqgs-rule", "equed='%c' but the threshold rule on (rowcnd=%g, colcnd=%g, amax=%g) gives '%c'", equed, rowcnd, colcnd, amaxd, want_e); goto done; }
@@ -296,12 +307,14 @@ static const int RM11[] = { 1, 2, 3, 2, 3, 1, 2 }, RN11[] = { 1, 2, 3, 1, 2, 2, 
 static long r11_off[8]; static long r11_total(void) { long s = 0; for (int k = 0; k < 7; k++) { r11_off[k] = s; s += 1L << (RM11[k] * RN11[k]); } r11_off[7] = s; return s; }
 static void s11(const int *d, vcase *c) { r11_total(); int k = 0; while (d[0] >= r11_off[k + 1]) k++; c->m = RM11[k]; c->n = RN11[k]; c->pat = (uint64_t)(d[0] - r11_off[k]); c->vals = d[1]; c->k = d[2]; c->type = d[3]; }
 static void s11_4(const int *d, vcase *c) { c->m = c->n = 4; c->pat = (uint64_t)d[0]; c->vals = (int[]){ 2, 3, 8, 9 }[d[1]]; c->k = 0; c->type = d[2]; }
-static const family F11Q[] = { { "all patterns of 1x1,2x2,3x3,2x1,3x2,1x2,2x3 x 12 magnitude schemes x extreme-entry position 0..8 x type4", 4, { 2 + 16 + 512 + 4 + 64 + 4 + 64, 12, 9, 4 }, s11 } };
+static void s11L(const int *d, vcase *c) { int e[4] = { 2 + d[0], d[1], 0, d[3] }; s11(e, c); c->k = d[2]; c->aux = 1; }   /* all 2x2, 3x3 (first 200) patterns */
+#define FAM11L { "xlaqgs threshold sweep: patterns of 2x2 and 3x3 (first 240) x schemes{0,1,2,3} x (ROWCND, COLCND in {below .1, .1, above .1, 0, 1}) x AMAX in {1, SMALL, below SMALL, LARGE, above LARGE} x type4", 4, { 256, 4, 125, 4 }, s11L }
+static const family F11Q[] = { { "all patterns of 1x1,2x2,3x3,2x1,3x2,1x2,2x3 x 12 magnitude schemes x extreme-entry position 0..8 x type4", 4, { 2 + 16 + 512 + 4 + 64 + 4 + 64, 12, 9, 4 }, s11 }, FAM11L };
 static const family F11T[] = { { "all patterns of 1x1,2x2,3x3,2x1,3x2,1x2,2x3 x 12 magnitude schemes x extreme-entry position 0..8 x type4", 4, { 2 + 16 + 512 + 4 + 64 + 4 + 64, 12, 9, 4 }, s11 },
-                               { "ALL(4) x 4 magnitude schemes x type4", 3, { N_ALL4, 4, 4 }, s11_4 } };
-static long sz_11(int tier) { return tier ? fam_total(F11T, 2) : fam_total(F11Q, 1); }
-static void dec_11(int tier, long idx, vcase *c) { if (tier) fam_decode(F11T, 2, idx, c); else fam_decode(F11Q, 1, idx, c); }
-static void desc_11(int tier, char *b, size_t cap) { if (tier) fam_describe(F11T, 2, b, cap); else fam_describe(F11Q, 1, b, cap); }
+                               { "ALL(4) x 4 magnitude schemes x type4", 3, { N_ALL4, 4, 4 }, s11_4 }, FAM11L };
+static long sz_11(int tier) { return tier ? fam_total(F11T, 3) : fam_total(F11Q, 2); }
+static void dec_11(int tier, long idx, vcase *c) { if (tier) fam_decode(F11T, 3, idx, c); else fam_decode(F11Q, 2, idx, c); }
+static void desc_11(int tier, char *b, size_t cap) { if (tier) fam_describe(F11T, 3, b, cap); else fam_describe(F11Q, 2, b, cap); }
 static const char RULE11[] = "every pattern of the listed shapes x magnitude-assignment scheme (9-level alphabet from the smallest subnormal to near overflow, one extreme entry at every position) x type through xgsequ and xlaqgs; non-trivial = at least one stored entry";
 
 const vf_check vf_checks[] = {
